@@ -415,6 +415,23 @@ struct seqset {
 
 static char array_tail[4096] = "";
 
+/* two application threads writing two different objects to two different files at the same time */
+struct pw_arg { struct msa *m; char *path; char *fmt; int rounds; int rc; pthread_barrier_t *bar; };
+static void *pw_thread(void *p)
+{
+        struct pw_arg *a = p;
+        pthread_barrier_wait(a->bar);
+        for (int i = 0; i < a->rounds; i++) {
+                char pth[4096];
+                snprintf(pth, sizeof(pth), "%s.%d", a->path, i);      /* every round keeps its file */
+                int rc = kalign_write_msa(a->m, pth, a->fmt);
+                if (rc != OK) {
+                        a->rc = rc;
+                }
+        }
+        return NULL;
+}
+
 static int read_seqset(const char *fn, struct seqset *s)
 {
         FILE *f = fopen(fn, "rb");
@@ -638,6 +655,22 @@ int main(int argc, char **argv)
                         int rc = -2;
                         if (slot[sl] && slot[sl]->aligned == ALN_STATUS_ALIGNED) {
                                 rc = finalise_alignment(slot[sl]);
+                        }
+                        fprintf(out, "\"rc\":%d", rc);
+                } else if (!strcmp(tok[0], "pwrite") && nt >= 8) {
+                        /* pwrite rounds slotA fmtA pathA slotB fmtB pathB */
+                        pthread_barrier_t bar;
+                        pthread_t th[2];
+                        struct pw_arg a[2] = {{slot[atoi(tok[2])], tok[4], tok[3], atoi(tok[1]), OK, &bar}, {slot[atoi(tok[5])], tok[7], tok[6], atoi(tok[1]), OK, &bar}};
+                        int rc = -2;
+                        if (a[0].m && a[1].m) {
+                                pthread_barrier_init(&bar, NULL, 2);
+                                pthread_create(&th[0], NULL, pw_thread, &a[0]);
+                                pthread_create(&th[1], NULL, pw_thread, &a[1]);
+                                pthread_join(th[0], NULL);
+                                pthread_join(th[1], NULL);
+                                pthread_barrier_destroy(&bar);
+                                rc = (a[0].rc == OK && a[1].rc == OK) ? 0 : 1;
                         }
                         fprintf(out, "\"rc\":%d", rc);
                 } else if (!strcmp(tok[0], "tail")) {
